@@ -1,11 +1,13 @@
 package props
 
 import (
+	"bytes"
 	"fmt"
 	"go/ast"
 	"go/parser"
 	"go/token"
 	"go/types"
+	"runtime/debug"
 	"strings"
 	"testing"
 
@@ -103,6 +105,15 @@ func descHasTParam(d *gen.Desc) bool {
 
 type typeCase struct {
 	Desc *gen.Desc `json:"desc"`
+	Lazy *c14Lazy  `json:"lazy,omitempty"` // C14: a delay-loaded named type (Config.LoadNamed) instead of a description
+}
+
+// c14Lazy: a named type that is declared (NewType) but not initialised when its zero value is
+// synthesised; the package's LoadNamed callback initialises it on demand.
+type c14Lazy struct {
+	Under string `json:"under"` // underlying type, Go syntax
+	Alias bool   `json:"alias"` // the zero value is asked for through an alias of the type
+	Form  string `json:"form"`  // returnerr | zerolit | zero
 }
 
 // runWithType builds the prelude and calls declare(d, T) before the package is written.
@@ -614,6 +625,9 @@ func TestC14(t *testing.T) {
 	r.Assume("go/types is the oracle")
 	defer r.Done()
 	eval := func(c *typeCase) (string, string) {
+		if c.Lazy != nil {
+			return c14LazyEval(c.Lazy)
+		}
 		sig, msg, _, _ := c14Eval(c)
 		return sig, msg
 	}
@@ -630,6 +644,27 @@ func TestC14(t *testing.T) {
 	}
 	if r.Shard == 0 {
 		typeReplayFindings(r, eval)
+	}
+	if r.Shard == 0 {
+		// delay-loaded named types: a small closed grid, enumerated completely
+		for _, under := range c14LazyUnders {
+			for _, alias := range []bool{false, true} {
+				for _, form := range []string{"returnerr", "zerolit", "zero"} {
+					c := &typeCase{Lazy: &c14Lazy{Under: under, Alias: alias, Form: form}}
+					sig, msg := c14LazyEval(c.Lazy)
+					r.Eval()
+					r.Class("delay-loaded-named-type")
+					r.Nontrivial(fmt.Sprintf("lazy|%s|%v|%s", under, alias, form))
+					if sig != "" {
+						if f := r.MatchKnown(sig); f != nil {
+							r.Known(f)
+							continue
+						}
+						r.Report(c, sig, "%s", msg)
+					}
+				}
+			}
+		}
 	}
 	env := typeEnv()
 	opts := gen.TypeGenOpts{MaxDepth: 4, NoGenSig: true, NoTParams: true, FancyTags: true, NamedParam: true}
@@ -656,4 +691,86 @@ func TestC14(t *testing.T) {
 		}
 		r.Sample(func() any { return map[string]string{"type": d.String(), "zero_form": form} })
 	})
+}
+
+var c14LazyUnders = []string{"int", "uint8", "float64", "complex128", "string", "bool", "*string", "[]int", "map[string]int", "chan int", "func()", "interface{ M() }", "[2]int", "struct{ a int }", "error"}
+
+// c14LazyEval declares `type LZ <under>` lazily (NewType now, InitType from the LoadNamed callback),
+// asks for the zero value of LZ (or of an alias of it) before the type is loaded, and type-checks
+// the written package: the zero must be a value of the type.
+func c14LazyEval(lz *c14Lazy) (sig, msg string) {
+	shape := fmt.Sprintf("under=%s|alias=%v|form=%s", lz.Under, lz.Alias, lz.Form)
+	tv, err := types.Eval(token.NewFileSet(), types.NewPackage("main", "main"), token.NoPos, lz.Under)
+	if err != nil {
+		panic(err)
+	}
+	var decl *gogen.TypeDecl
+	var pkg *gogen.Package
+	load := func(at *gogen.Package) {
+		if decl != nil && decl.State() == gogen.TyStateUninited {
+			decl.InitType(at, tv.Type)
+		}
+	}
+	var out string
+	var perr any
+	var stack string
+	var reported []error
+	var zeroType types.Type
+	var want types.Type
+	func() {
+		defer func() {
+			if perr = recover(); perr != nil {
+				stack = string(debug.Stack())
+			}
+		}()
+		pkg = gogen.NewPackage("", "main", &gogen.Config{Importer: oracle.Importer(), HandleErr: func(e error) { reported = append(reported, e) },
+			LoadNamed: func(at *gogen.Package, typ *types.Named) {
+				if decl != nil && typ == decl.Type() {
+					load(at)
+				}
+			}})
+		decl = pkg.NewType("LZ")
+		want = decl.Type()
+		var T types.Type = decl.Type()
+		if lz.Alias {
+			T = pkg.AliasType("LA", decl.Type())
+		}
+		switch lz.Form {
+		case "returnerr":
+			results := types.NewTuple(types.NewParam(token.NoPos, pkg.Types, "", T), types.NewParam(token.NoPos, pkg.Types, "", gogen.TyError))
+			cb := pkg.NewFunc(nil, "get", nil, results, false).BodyStart(pkg).NewVar(gogen.TyError, "err")
+			_, errObj := cb.Scope().LookupParent("err", token.NoPos)
+			cb.Val(errObj).ReturnErr(false).End()
+		case "zerolit":
+			results := types.NewTuple(types.NewParam(token.NoPos, pkg.Types, "", T))
+			pkg.NewFunc(nil, "none", nil, results, false).BodyStart(pkg).ZeroLit(T).Return(1).End()
+		default:
+			zeroType = pkg.Zero(T).Type
+			results := types.NewTuple(types.NewParam(token.NoPos, pkg.Types, "", T))
+			pkg.NewFunc(nil, "none", nil, results, false).BodyStart(pkg).ZeroLit(T).Return(1).End()
+		}
+		load(pkg) // the declaration is reached at the latest here
+		var buf bytes.Buffer
+		if err := gogen.WriteTo(&buf, pkg); err != nil {
+			panic(err)
+		}
+		out = buf.String()
+	}()
+	if perr != nil {
+		if k := drive.ClassifyPanic(perr); k == "runtime" || k == "other" {
+			return "lazy-zero-fault|" + shape, fmt.Sprintf("run-time fault: %v\n%s", perr, firstLines(stack, 20))
+		}
+		return "lazy-zero-rejected|" + shape + "|" + normMsg(fmt.Sprint(perr)), fmt.Sprintf("the builder rejected the zero value of a delay-loaded type: %v", perr)
+	}
+	if len(reported) > 0 {
+		return "lazy-zero-rejected|" + shape + "|" + normMsg(reported[0].Error()), fmt.Sprintf("the builder reported: %v", reported[0])
+	}
+	if zeroType != nil && lz.Form == "zero" && !lz.Alias && !types.Identical(zeroType, want) {
+		return "lazy-zero-type|" + shape, fmt.Sprintf("Zero(LZ) is reported with type %v", zeroType)
+	}
+	chk := oracle.CheckSources("main", map[string]string{"out.go": out}, oracle.Importer())
+	if !chk.OK() {
+		return "lazy-zero-output-rejected|" + shape + "|" + oracle.MsgClass(chk.ErrText(1)), fmt.Sprintf("the zero value of the delay-loaded type LZ (%s) is rejected by go/types: %s\n%s", lz.Under, chk.ErrText(2), tailLines(out, 8))
+	}
+	return "", ""
 }
